@@ -27,6 +27,21 @@ class shadow:
         _tls.shadow -= 1
 
 
+class reentrant_handler:
+    """While active, the FIRST record that reaches the sink from the current (non-client) thread
+    makes the sink call ``fn`` before it returns - the application's handler using the library
+    from inside ``logger.warning``.  ``fn`` None = inactive."""
+
+    def __init__(self, fn: Any) -> None:
+        self.fn = fn
+
+    def __enter__(self) -> None:
+        _tls.reenter = self.fn
+
+    def __exit__(self, *a: Any) -> None:
+        _tls.reenter = None
+
+
 def current_log() -> list[list[str]]:
     c = getattr(threading.current_thread(), "sim_client", None)
     return c.log if c is not None else _lock_free_records
@@ -63,6 +78,10 @@ class _Sink(logging.Handler):
                     raise lf["exc"]
         else:
             _lock_free_records.append(rec)
+            fn = getattr(_tls, "reenter", None)
+            if fn is not None:
+                _tls.reenter = None
+                fn()
 
 
 def install_log_sink() -> None:
